@@ -31,12 +31,15 @@ fn parse_objective(text: &str) -> (String, Vec<String>, bool) {
     let res = std::panic::catch_unwind(|| RoocParser::new(src.clone()).parse());
     match res {
         Err(_) => ("(err panic)".into(), vec![], false),
-        Ok(Err(_)) => ("(err reject)".into(), vec![], false),
+        Ok(Err(e)) => (format!("(err reject {})", syntax::error_class(&e)), vec![], false),
         Ok(Ok(pm)) => {
             let e = &pm.objective().rhs;
             let mut vars = vec![];
             syntax::variables(e, &mut vars);
-            (format!("(ok {})", syntax::pre_exp(e, &src)), vars, true)
+            let tree = syntax::pre_exp(e, &src);
+            // marker for `one_ctx`: leaves beyond numbers / names / calls are not compiled for the oracle
+            if syntax::has_block_leaf(e) { vars.insert(0, "\u{0}blocks".into()); }
+            (format!("(ok {})", tree), vars, true)
         }
     }
 }
@@ -82,18 +85,29 @@ fn one_text(text: &str, toks: &[T], stream: &str) -> Case { one_ctx(text, toks, 
 
 /// `consts`: named `where` constants (name, integer / decimal literal) the expression may mention
 fn one_ctx(text: &str, toks: &[T], stream: &str, consts: &[(String, String)]) -> Case {
-    let (imp, vars, accepted) = parse_objective(text);
+    let (imp, mut vars, accepted) = parse_objective(text);
+    let blocks = vars.first().map(|v| v == "\u{0}blocks").unwrap_or(false);
+    if blocks { vars.remove(0); }
     let mut c = Case::default();
     c.req = format!("parse {}", sx::q(text));
     c.imp = imp.clone();
     c.show = text.to_string();
-    c.tags = vec![stream.to_string(), if accepted { "accept".into() } else { "reject".into() }];
+    c.tags = vec![stream.to_string(), if accepted { "accept".into() } else { format!("reject:{}", imp.trim_end_matches(')').rsplit(' ').next().unwrap_or("?")) }];
+    // texts the lexer model declines (escaped names, `$`/`_`-prefixed compounds, graphs, …) and trees with an array
+    // whose display the model does not compute are not compared with the model; the oracle still judges them
+    if !syntax::lex_supported(text) || imp.contains("(other ") || opaque_array(&imp) {
+        c.req = String::new();
+        c.tags.push("model-declines".into());
+    }
     features(toks, &mut c.tags);
     let nops = imp.matches("(bin ").count() + imp.matches("(un ").count();
     c.tags.push(format!("ops-{}", nops.min(6)));
     c.nontrivial = accepted && nops >= 1;
     let impl_part = if !accepted {
         "reject".to_string()
+    } else if blocks {
+        c.tags.push("pre-only".into());
+        format!("(pre {})", &imp[4..imp.len() - 1])
     } else {
         match compiled_objective(text, &vars, consts) {
             Some(e) => { c.tags.push("compiled".into()); format!("(compiled {})", e) }
@@ -128,6 +142,23 @@ fn one_ctx(text: &str, toks: &[T], stream: &str, consts: &[(String, String)]) ->
         c.tags.push("alias-twin".into());
     }
     c
+}
+
+/// does the tree carry an array literal other than an integer / boolean / empty one (`(prim "[1, 2]")`)?
+fn opaque_array(imp: &str) -> bool {
+    let mut rest = imp;
+    while let Some(k) = rest.find("(prim \"") {
+        let body = &rest[k + 7..];
+        let end = body.find('"').unwrap_or(body.len());
+        let d = &body[..end];
+        let inner = d.trim_start_matches('[').trim_end_matches(']');
+        let ok = d.starts_with('[') && d.ends_with(']') && !inner.contains('[')
+            && (inner.is_empty() || inner.split(", ").all(|x| !x.is_empty() && x.chars().all(|c| c.is_ascii_digit()))
+                || inner.split(", ").all(|x| x == "true" || x == "false"));
+        if !ok { return true; }
+        rest = &body[end..];
+    }
+    false
 }
 
 /// rename every word that starts (any letter case) with `true` / `false`, is not exactly that literal and is not
